@@ -111,7 +111,7 @@ class OffsetMapping(MutableMapping[gtirb.Offset, T]):
                 self._data[elem] = {}
             self._data[elem][disp] = value
         elif not isinstance(value, MutableMapping):
-            raise ValueError("not a MutableMapping: %r" % value)
+            raise ValueError("not a MutableMapping: %r" % (value,))
         else:
             self._data[key] = value
 
